@@ -202,6 +202,9 @@ def run_histories(ctx, props, profile_for, master_every=4, mprofile_for=None):
     for idx, rng in ctx.cases():
         if master_every and idx % master_every == master_every - 1:
             mh = mengine.MHistory(ctx, rng, mprofile_for(rng) if mprofile_for else mdrv.MProfile(), props)
+            if 'C04' in props:
+                from ..master import crash
+                mh.d.cutter = crash.HeadroomSession(mh, ctx)
             try:
                 mh.run()
             finally:
